@@ -11,3 +11,4 @@ import SpoxModel.Props.C15
 #print axioms C15.construct_total_counterexample
 #print axioms C15.no_bad_value_counterexample
 #print axioms C15.off_is_transparent_counterexample
+#print axioms C15.tensor_value_never_object
